@@ -1,7 +1,7 @@
 (* Extraction of the C01 model (run from ocaml/gen). ExtrOcamlBasic only. *)
 From Coq Require Import Extraction ExtrOcamlBasic.
-From Tele Require Import Lib.Bytes Lib.Str Lib.Assoc Model.Config Model.ApprovalSpec Model.Report.
+From Tele Require Import Lib.Bytes Lib.Str Lib.Assoc Model.Config Model.ApprovalSpec Model.Report Model.ReportRuns.
 Extraction Language OCaml.
 Extraction "report_model.ml" expand new_config has_goos has_goarch has_goversion has_program has_version
   has_counter has_counter_prefix has_stack rate create_report report_check local_check
-  name_unambiguousb approved_buildb.
+  name_unambiguousb approved_buildb run_uploader run_spec expired_now.
